@@ -93,12 +93,19 @@ class Mitm(scen.Relay):
             elif what == "trunc":
                 data = hostile.answer_truncations(self.hrng, dg.data)
                 tag = {"kind": "trunc", "matched": True}
+                if i % 2 == 1:
+                    # every other cut-down variant arrives right behind a complete copy of the answer it was made from:
+                    # what is missing from it is then exactly what the previous datagram left in the receive buffer
+                    out.append((self.latency + 20 * len(out), dg.data, dg.src, dg.dst,
+                                {"kind": "fullcopy", "matched": True, "hostile": True,
+                                 "step": "%s/%d" % (q["kind"], q["k"]), "len": len(dg.data)}))
+                    self.injected += 1
             else:
                 data = proto.build_data_answer(q["id"], q["labels"], q["qtype"], bytes.fromhex(p["payload"]),
                                                p.get("downenc", "T"))
                 tag = {"kind": "payload", "matched": True}
             tag = dict(tag, hostile=True, step="%s/%d" % (q["kind"], q["k"]), len=len(data))
-            out.append((self.latency + 20 * i, data, dg.src, dg.dst, tag))
+            out.append((self.latency + 20 * len(out), data, dg.src, dg.dst, tag))
             self.injected += 1
         if p.get("mode", "prepend") == "prepend":
             for r in scen.Relay.route(self, world, dg):
@@ -143,7 +150,7 @@ def execute(spec):
         sess = scen.Session(runs.bdir(), seed=spec["seed"], relay=relay, tag="m%d" % spec["seed"], **spec.get("sess", {}))
         w = sess.w
         if spec.get("residue"):
-            w.k.cmd("residue %d" % spec["residue"])
+            w.k.cmd("residue %s" % spec["residue"])
         hs = sess.handshake(limit=spec.get("hs_limit_ms", 400000) * 1000)
         res["stats"]["handshake"] = hs
         t0 = w.now
